@@ -38,7 +38,7 @@ ANCHORS = ['Binary8Format.float_to_int8', 'MXFPFormat.float_to_int',
            'Bits._gete2m3mxfp', 'Bits._gete2m1mxfp', 'Bits._gete8m0mxfp', 'Bits._getmxint',
            'Bits._getbfloatbe', 'Bits._getbfloatle',
            'scaled_get_fn.<locals>.wrapper', 'scaled_set_fn.<locals>.wrapper', 'scaled_read_fn.<locals>.wrapper']
-ENC_ROUTES = ['kw', 'prop', 'token', 'build', 'build2', 'pack', 'packkw', 'array', 'array-set', 'array-append', 'kw-after-mutated', 'array-after-equal', 'array-extend-after-equal']
+ENC_ROUTES = ['kw', 'prop', 'token', 'build', 'build2', 'pack', 'packkw', 'array', 'array-set', 'array-append', 'kw-after-mutated', 'array-after-equal', 'array-extend-after-equal', 'pack-after-equal', 'pack-after-other-mode', 'build-after-other-mode']
 DEC_ROUTES = ['prop', 'read', 'readlist', 'unpack', 'parse', 'array', 'array-item', 'array-pp', 'array-big']
 S_ENC_ROUTES = ['build', 'array', 'array-set', 'array-append', 'array-after-equal', 'array-extend-after-equal']
 S_DEC_ROUTES = ['parse', 'read', 'readlist', 'unpack', 'array', 'array-item', 'array-pp', 'array-big']
@@ -116,6 +116,22 @@ def lib_encode(route, clsname, fmt, nm, x):
             b = Dtype(*split_name(fmt, nm)).build(x)
         elif route == 'pack':
             b = bitstring.pack(nm, x)
+        elif route == 'pack-after-equal':
+            # the same call made just before with a value that compares equal (the other zero for a zero)
+            bitstring.pack(nm, -x if isinstance(x, float) and x == 0 else x)
+            b = bitstring.pack(nm, x)
+        elif route in ('pack-after-other-mode', 'build-after-other-mode'):
+            # the same call made just before under the other overflow setting: the result follows the setting in force NOW
+            now = bitstring.options.mxfp_overflow
+            bitstring.options.mxfp_overflow = 'overflow' if now == 'saturate' else 'saturate'
+            try:
+                try:
+                    bitstring.pack(nm, x) if route.startswith('pack') else Dtype(nm).build(x)
+                except ValueError:
+                    pass
+            finally:
+                bitstring.options.mxfp_overflow = now
+            b = bitstring.pack(nm, x) if route.startswith('pack') else Dtype(nm).build(x)
         elif route == 'packkw':
             b = bitstring.pack(f'{nm}=v', v=x)
         elif route == 'array':
